@@ -17,12 +17,20 @@ def make_wl(rng, k):
     spec["n_chr"] = rng.choice([3, 4, 5])
     if k is not None and k % 4 == 2:
         spec["long_locus"] = 2       # a reference isoform seen in two processing regions of one read island
+        if k % 8 == 2:
+            # killed in the middle of the model construction (a chromosome half written, not yet marked as processed), then resumed
+            opts["force_fault"] = {"kind": "kill", "stage": "construct", "frac": [0.35, 0.6][(k // 8) % 2], "phase": "after"}
     if k is not None and k % 4 == 1:
         # two experiments in one interpreter (--threads 1) that share some novel exons and each have some of their own
         spec.update(n_exp=2, exp_mode="split", novel=3, novel_cov=8, novel_locus=1, outside_exon=2, novel_gene_overlap=2,
                     genes_per_chr=max(3, spec.get("genes_per_chr", 3)), drop_chr_annotation=0)
         opts["annotated"] = True
         opts["force_cell"] = {"threads": 1}
+        if k % 16 == 13:
+            opts["force_cell"] = {"threads": 1, "sched": {"policy": "serial", "seed": 0}}
+            opts["no_fault"] = True
+            # ... with an annotation that already carries IsoQuant-style ids (reserved numbers) and the same reads in both experiments
+            spec.update(pre_ids=2, exp_mode="same")
     opts["annotated"] = True if spec["pre_ids"] else opts.get("annotated", True)
     return spec, opts
 
